@@ -144,32 +144,7 @@ func c20BuildState(c *fw.Ctx, blocks int) (*Env, *Gen) {
 	w.Ent, w.Reg, w.Stream, w.Bank, w.Staking = 40, 30, 25, 5, 0
 	w.EntHostile, w.GovPct, w.VetoPct, w.LowGasPct, w.BadSeqPct = 5, 2, 0, 0, 0
 	RunMixed(e, g, w, blocks)
-	// streams towards receivers whose addresses are not 20 bytes long (module-derived accounts are 32
-	// bytes; anything from 1 to 255 bytes is a legal address): listings must report them with exactly
-	// their parties
-	if e.Halted == "" {
-		var txs []*TxPlan
-		for i, n := range []int{1, 19, 21, 32, 32, 64, 255} {
-			if !r.Chance(60) {
-				continue
-			}
-			raw := make([]byte, n)
-			for j := range raw {
-				raw[j] = byte(r.Intn(256))
-			}
-			if n == 32 && i%2 == 0 { // ends like a lab account's address
-				copy(raw[12:], e.L.Accts[2].Addr)
-			}
-			rc := sdk.AccAddress(raw)
-			e.ExtraAddrs = append(e.ExtraAddrs, rc)
-			s := e.L.Accts[1+i%(len(e.L.Accts)-1)]
-			txs = append(txs, g.plan(s, nil, &streamtypes.MsgCreateStream{Receiver: rc.String(), Sender: s.Addr.String(), Deposit: sdk.NewInt64Coin(lab.Denom2, int64(700+i)), FlowRate: 10}))
-		}
-		if len(txs) > 0 {
-			e.Block(time.Second, txs...)
-			c.Count("streams_to_odd_length_receivers", int64(len(txs)))
-		}
-	}
+	oddReceiverStreams(c, e, g, 60)
 	if e.Halted != "" {
 		c.Count("halted_histories", 1)
 		e.L.Cleanup()
@@ -784,3 +759,34 @@ func runC20Race(c *fw.Ctx) {
 }
 
 func dbmNewMem() dbm.DB { return dbm.NewMemDB() }
+
+// oddReceiverStreams: streams towards receivers whose addresses are not 20 bytes long (module-derived
+// accounts are 32 bytes; anything from 1 to 255 bytes is a legal address): listings - and exports -
+// must report them with exactly their parties.
+func oddReceiverStreams(c *fw.Ctx, e *Env, g *Gen, pct int) {
+	if e.Halted != "" {
+		return
+	}
+	r := e.R
+	var txs []*TxPlan
+	for i, n := range []int{1, 19, 21, 32, 32, 64, 255} {
+		if !r.Chance(pct) {
+			continue
+		}
+		raw := make([]byte, n)
+		for j := range raw {
+			raw[j] = byte(r.Intn(256))
+		}
+		if n == 32 && i%2 == 0 { // ends like a lab account's address
+			copy(raw[12:], e.L.Accts[2].Addr)
+		}
+		rc := sdk.AccAddress(raw)
+		e.ExtraAddrs = append(e.ExtraAddrs, rc)
+		s := e.L.Accts[1+i%(len(e.L.Accts)-1)]
+		txs = append(txs, g.plan(s, nil, &streamtypes.MsgCreateStream{Receiver: rc.String(), Sender: s.Addr.String(), Deposit: sdk.NewInt64Coin(lab.Denom2, int64(700+i)), FlowRate: 10}))
+	}
+	if len(txs) > 0 {
+		e.Block(time.Second, txs...)
+		c.Count("streams_to_odd_length_receivers", int64(len(txs)))
+	}
+}
